@@ -12,7 +12,7 @@ open Physis.Spec.HavokTag
 
 theorem bitFieldBytes_eq (count : Nat) (h : count + 7 < 2 ^ 32) : bitFieldBytes count = (count + 7) / 8 := by
   unfold bitFieldBytes
-  have key : ∀ v : BitVec 32, (v &&& 0xFFFFFFF8#32) / 8#32 = v / 8#32 := by intro v; bv_decide
+  have key : ∀ v : BitVec 32, (v &&& 0xFFFFFFF8#32) / 8#32 = v / 8#32 := by intro v; bv_decide (timeout := 300)
   have h1 := congrArg BitVec.toNat (key (BitVec.ofNat 32 (count + 7)))
   simp only [BitVec.toNat_udiv, BitVec.toNat_and, BitVec.toNat_ofNat] at h1
   rw [Nat.mod_eq_of_lt h] at h1
